@@ -12,9 +12,93 @@ Require Import PV.Gen.TypeEvalGen.
 Lemma gen_kind_match_is_model : forall f p, gen_kind_match f p = kind_match f p.
 Proof. intros [] []; reflexivity. Qed.
 
-(* pyanalyze/type_evaluation.py: ConditionEvaluator.visit_BoolOp *)
-Lemma pin_visit_BoolOp_ok : pin_visit_BoolOp = "16e5f2a4f024e8fc16de"%string.
-Proof. reflexivity. Qed.
+(* ConditionEvaluator.visit_BoolOp is no longer pinned: it is translated.
+   gen_and_step / gen_or_step (the per-operand if-chain: early exit through
+   _unite_with_remaining, or narrowed_varmap.update + context narrowing +
+   remaining_varmaps.append) and gen_and_end / gen_or_end (the result after the
+   loop) are regenerated from the source; the loops assembled from them are the
+   model's eval_and / eval_or, the functions C20_condition_splits_union is
+   proved about. *)
+Require Import PV.Proofs.TypeEvalSingle.
+
+Section BoolOp.
+  Variable acc : typ -> member -> bool -> bool.
+  Variable narrow : typ -> member -> list member.
+  Variable posof : var -> posn.
+
+  Fixpoint gen_and (rho : varmap) (cs : conds) (narrowed : varmap) (remaining : list varmap) : cret :=
+    match cs with
+    | CNil => gen_and_end narrowed remaining
+    | CCons c cs' =>
+        match gen_and_step narrowed remaining (eval_cond acc narrow posof rho c) with
+        | BContinue v n r => gen_and (v ++ rho) cs' n r
+        | BReturn r => r
+        end
+    end.
+
+  Fixpoint gen_or (rho : varmap) (cs : conds) (narrowed : varmap) (remaining : list varmap) : cret :=
+    match cs with
+    | CNil => gen_or_end narrowed remaining
+    | CCons c cs' =>
+        match gen_or_step narrowed remaining (eval_cond acc narrow posof rho c) with
+        | BContinue v n r => gen_or (v ++ rho) cs' n r
+        | BReturn r => r
+        end
+    end.
+
+  Lemma gen_and_is_model : forall cs rho narrowed remaining,
+    gen_and rho cs narrowed remaining = eval_and acc narrow posof rho cs narrowed remaining.
+  Proof.
+    induction cs as [|c cs IH]; intros rho narrowed remaining; [reflexivity|].
+    cbn [gen_and]. rewrite eval_and_cons. unfold gen_and_step.
+    destruct (eval_cond acc narrow posof rho c) as [[l|] [r|]]; cbn [fst snd is_none the]; try apply IH; reflexivity.
+  Qed.
+
+  (* a condition result always has at least one side *)
+  Definition some_side (r : cret) : Prop := r <> (None, None).
+
+  Lemma uwr_some : forall remaining v, exists u, unite_with_remaining remaining (Some v) = Some u.
+  Proof.
+    intros [|r1 rest] v; simpl; eauto.
+  Qed.
+
+  Lemma some_side_all :
+    (forall c rho, some_side (eval_cond acc narrow posof rho c)) /\
+    (forall cs rho narrowed remaining,
+        some_side (eval_and acc narrow posof rho cs narrowed remaining) /\
+        some_side (eval_or acc narrow posof rho cs narrowed remaining)).
+  Proof.
+    apply (cond_conds_ind
+             (fun c => forall rho, some_side (eval_cond acc narrow posof rho c))
+             (fun cs => forall rho narrowed remaining,
+                  some_side (eval_and acc narrow posof rho cs narrowed remaining) /\
+                  some_side (eval_or acc narrow posof rho cs narrowed remaining))); unfold some_side.
+    - intros f v rho. cbn. destruct (kind_match f (posof v)); discriminate.
+    - intros v T ex rho. cbn. unfold is_of_type.
+      destruct (forallb _ _); [discriminate|]. destruct (existsb _ _); discriminate.
+    - intros b rho. cbn. destruct b; discriminate.
+    - intros c IH rho. rewrite eval_cond_not. specialize (IH rho).
+      destruct (eval_cond acc narrow posof rho c) as [[l|] [r|]]; try discriminate. congruence.
+    - intros cs IH rho. apply (IH rho [] []).
+    - intros cs IH rho. apply (IH rho [] []).
+    - intros rho narrowed remaining. split; cbn; discriminate.
+    - intros c IHc cs IHcs rho narrowed remaining. rewrite eval_and_cons, eval_or_cons. specialize (IHc rho).
+      destruct (eval_cond acc narrow posof rho c) as [[l|] [r|]]; try (exfalso; apply IHc; reflexivity); split;
+        try apply IHcs.
+      + destruct (uwr_some remaining l) as [u E]. rewrite E. discriminate.
+      + destruct (uwr_some remaining r) as [u E]. rewrite E. discriminate.
+  Qed.
+
+  Lemma gen_or_is_model : forall cs rho narrowed remaining,
+    gen_or rho cs narrowed remaining = eval_or acc narrow posof rho cs narrowed remaining.
+  Proof.
+    induction cs as [|c cs IH]; intros rho narrowed remaining; [reflexivity|].
+    cbn [gen_or]. rewrite eval_or_cons. unfold gen_or_step.
+    pose proof (proj1 some_side_all c rho) as Hs. unfold some_side in Hs.
+    destruct (eval_cond acc narrow posof rho c) as [[l|] [r|]]; cbn [fst snd is_none the]; try apply IH; try reflexivity.
+    exfalso. apply Hs. reflexivity.
+  Qed.
+End BoolOp.
 
 (* pyanalyze/type_evaluation.py: ConditionEvaluator.visit_is_of_type *)
 Lemma pin_visit_is_of_type_ok : pin_visit_is_of_type = "ccc9621a02e10bbc9966"%string.
@@ -84,3 +168,10 @@ Proof. reflexivity. Qed.
 Lemma pin_evaluator_handoff_ok : pin_evaluator_handoff = "f921b6043693a46679a1"%string.
 Proof. reflexivity. Qed.
 
+
+Lemma boolop_is_translated :
+  forall (acc : typ -> member -> bool -> bool) (narrow : typ -> member -> list member) (posof : var -> posn)
+         cs rho narrowed remaining,
+  gen_and acc narrow posof rho cs narrowed remaining = eval_and acc narrow posof rho cs narrowed remaining /\
+  gen_or acc narrow posof rho cs narrowed remaining = eval_or acc narrow posof rho cs narrowed remaining.
+Proof. intros. split; [apply gen_and_is_model|apply gen_or_is_model]. Qed.
